@@ -475,7 +475,7 @@ def gen_cases(rng, tier):
         import sys
         from props import _c13_handles as H
         cases += H.systematic(sys.modules[__name__], rng)
-        for _ in range(8 if tier == "quick" else 120):
+        for _ in range(6 if tier == "quick" else 120):
             cases.append(H.random_history(sys.modules[__name__], rng))
     # ---- statm
     for _ in range(n):
